@@ -25,6 +25,8 @@ import (
 	"runtime"
 	"sync"
 	"unsafe"
+
+	"github.com/uber-go/tally/v4/internal/verifhook"
 )
 
 var (
@@ -112,13 +114,16 @@ func newScopeRegistryWithShardCount(
 
 func (r *scopeRegistry) Report(reporter StatsReporter) {
 	defer r.purgeIfRootClosed()
+	verifhook.Yield("registry.pass.begin")
 	r.reportInternalMetrics()
 
 	for _, subscopeBucket := range r.subscopes {
 		subscopeBucket.mu.RLock()
 
 		for name, s := range subscopeBucket.s {
+			verifhook.YieldStr("registry.visit", name)
 			s.report(reporter)
+			verifhook.Yield("registry.pre-closed-read")
 
 			if s.closed.Load() {
 				r.removeWithRLock(subscopeBucket, name)
@@ -132,13 +137,16 @@ func (r *scopeRegistry) Report(reporter StatsReporter) {
 
 func (r *scopeRegistry) CachedReport() {
 	defer r.purgeIfRootClosed()
+	verifhook.Yield("registry.pass.begin")
 	r.reportInternalMetrics()
 
 	for _, subscopeBucket := range r.subscopes {
 		subscopeBucket.mu.RLock()
 
 		for name, s := range subscopeBucket.s {
+			verifhook.YieldStr("registry.visit", name)
 			s.cachedReport()
+			verifhook.Yield("registry.pre-closed-read")
 
 			if s.closed.Load() {
 				r.removeWithRLock(subscopeBucket, name)
@@ -174,6 +182,7 @@ func (r *scopeRegistry) Subscope(parent *scope, prefix string, tags map[string]s
 	_, _ = h.Write(buf)
 	subscopeBucket := r.subscopes[h.Sum64()%uint64(len(r.subscopes))]
 
+	verifhook.Yield("registry.subscope.pre-rlock")
 	subscopeBucket.mu.RLock()
 	// buf is stack allocated and casting it to a string for lookup from the cache
 	// as the memory layout of []byte is a superset of string the below casting is safe and does not do any alloc
@@ -223,6 +232,7 @@ func (r *scopeRegistry) Subscope(parent *scope, prefix string, tags map[string]s
 	// ref: https://go.dev/play/p/sxhExUKSxCw
 	unsanitizedKey = (unsanitizedKey + ".")[:len(unsanitizedKey)]
 
+	verifhook.Yield("registry.subscope.pre-lock")
 	subscopeBucket.mu.Lock()
 	defer subscopeBucket.mu.Unlock()
 
@@ -271,6 +281,7 @@ func (r *scopeRegistry) lockedLookup(subscopeBucket *scopeBucket, key string) (*
 }
 
 func (r *scopeRegistry) purgeIfRootClosed() {
+	verifhook.Yield("registry.purge-check")
 	if !r.root.closed.Load() {
 		return
 	}
@@ -291,8 +302,10 @@ func (r *scopeRegistry) removeWithRLock(subscopeBucket *scopeBucket, key string)
 	//      RLocked state prior to exiting. Defer order is important (LIFO).
 	subscopeBucket.mu.RUnlock()
 	defer subscopeBucket.mu.RLock()
+	verifhook.Yield("registry.remove.pre-lock")
 	subscopeBucket.mu.Lock()
 	defer subscopeBucket.mu.Unlock()
+	verifhook.Yield("registry.remove.locked")
 	delete(subscopeBucket.s, key)
 }
 
